@@ -681,6 +681,7 @@ impl World for WindowWorld {
                 "StreamAlphaNode: acceptance and retention are three-valued over the instants the clock showed during the call; a stamp ahead of the clock after a clock step-back is neither demanded nor forbidden".into(),
                 "field values are integral so sums are exact in any order".into(),
             ],
+            hang_is_a_verdict: true,
             required_probes: vec![
                 "fault.reordered_arrival",
                 "fault.clock_step_back",
